@@ -32,7 +32,7 @@ pub fn defs() -> Vec<PropDef> {
                 }
                 Ok(())
             },
-            rule: "HIST: stateright breadth-first search. Reader model: base slices of 0..=6 distinct octets; state = the real SliceReader(s) (parent and up to two live sub-readers) next to a reference cursor; actions = read_u8/u16/u32/u64 when the precondition holds, bytes(n) for n = 0..=len+2, skip_bytes(n) and subreader(n) for n = 0..=len, on any live reader; every transition calls the real method. Writer model: state = the real VecWriter next to a Vec<u8>; actions = write_u8/u16/u32/u64, write_bytes of 0..=2 octets, write_bytes_at of 0..=2 octets at every offset 0..=len+1 and at usize::MAX; every state is compared observable by observable. In addition (plain enumeration): writers filled to every size within 9 octets of 256, 4 KiB, 64 KiB and 128 KiB by a mix of all append operations, then overwritten at every position class, and readers over a 70 000-octet slice operated at positions around the same boundaries with sub-readers nested three deep. Non-trivial: states at depth >= 1 (at least one operation applied); the depth is part of the state key.",
+            rule: "HIST: stateright breadth-first search. Reader model: base slices of 0..=6 distinct octets; state = the real SliceReader(s) (parent and up to two live sub-readers) next to a reference cursor; actions = read_u8/u16/u32/u64 when the precondition holds, bytes(n) for n = 0..=len+2 and n = usize::MAX, usize::MAX-1, 2^63, skip_bytes(n) and subreader(n) for n = 0..=len, on any live reader; every transition calls the real method. Writer model: state = the real VecWriter next to a Vec<u8>; actions = write_u8/u16/u32/u64, write_bytes of 0..=2 octets, write_bytes_at of 0..=2 octets at every offset 0..=len+1 and at usize::MAX; every state is compared observable by observable. In addition (plain enumeration): writers filled to every size within 9 octets of 256, 4 KiB, 64 KiB and 128 KiB by a mix of all append operations, then overwritten at every position class, and readers over a 70 000-octet slice operated at positions around the same boundaries with sub-readers nested three deep. Non-trivial: states at depth >= 1 (at least one operation applied); the depth is part of the state key.",
             bounds: |t| json!({"reader": {"base_lengths": "0..=6", "depth": if t.thorough() {7} else {6}, "live_subreaders": 2}, "writer": {"depth": if t.thorough() {6} else {5}}, "search": "BFS, 16 threads, run twice and state counts compared"}),
             assumptions: COMMON_ASSUMPTIONS,
             fd_monitor: false,
@@ -179,7 +179,12 @@ fn apply_reader(s: &RState, op: ROp) -> RState {
         ROp::U32(_) => read!(read_u32_be_unchecked, 4),
         ROp::U64(_) => read!(read_u64_be_unchecked, 8),
         ROp::Bytes(_, k) => {
-            let k = k as usize;
+            let k: usize = match k {
+                250 => usize::MAX,
+                251 => usize::MAX - 1,
+                252 => (usize::MAX >> 1) + 1,
+                x => x as usize,
+            };
             let mut r = l.real;
             let got = guarded(move || {
                 let v = r.bytes(k).map(|b| b.to_vec());
@@ -303,6 +308,10 @@ impl Model for ReaderModel {
                 out.push(ROp::U64(i));
             }
             for k in 0..=(avail + 2) as u8 {
+                out.push(ROp::Bytes(i, k));
+            }
+            // requests near usize::MAX (position + length must not overflow)
+            for k in [250u8, 251, 252] {
                 out.push(ROp::Bytes(i, k));
             }
             for k in 0..=avail as u8 {
